@@ -1,5 +1,6 @@
 """C04 — hash_based and kdtree equal the default search."""
 import json
+import os
 
 import numpy as np
 
@@ -45,6 +46,50 @@ def kd_ball_cases(chk, nn, kmax):
     return bad
 
 
+def radius_model_cases(chk, nn, kmax):
+    """tie of Model/Radius.lean: (1) the radius expression re-read from the source, evaluated by NumPy, has the bits of the modelled
+    `radius k`; (2) SciPy's ball query keeps / drops a boundary pair exactly as the modelled comparison `sq <= r*r` says - for the
+    code's radius AND for nearby radii (so the model of the comparison is validated in both directions)."""
+    import importlib.util
+    import struct
+    from scipy.spatial import KDTree
+    spec = importlib.util.spec_from_file_location("gen_lean_tables", os.path.join(core.VERIF, "tools", "gen_lean_tables.py"))
+    mod = importlib.util.module_from_spec(spec)
+    spec.loader.exec_module(mod)
+    expr = mod.radius_expr()
+    bits = lambda x: struct.unpack("<Q", struct.pack("<d", float(x)))[0]  # noqa
+    ks = list(range(1, kmax + 1))
+    ans = core.run_driver([{"op": "radius", "k": k} for k in ks])
+    ops, metas = [], []
+    for k, a in zip(ks, ans):
+        try:
+            r_src = float(eval(expr, {"np": np, "max_edits": k}))      # the source expression, as NumPy evaluates it
+        except Exception as e:  # noqa
+            chk.broken_obligations.append(f"corr:radius expression {expr!r} cannot be evaluated: {e!r}")
+            return
+        if a[0] != "ok" or int(a[1]["r_bits"]) != bits(r_src):
+            chk.broken_obligations.append(f"corr:radius~np: the source radius {expr!r} at max_edits={k} is {r_src!r} (bits {bits(r_src)}), "
+                                          f"the modelled radius has bits {a[1]['r_bits'] if a[0] == 'ok' else a}")
+            return
+        if not a[1]["covers"]:
+            chk.broken_obligations.append(f"model: radiusCovers {k} is false")
+        m = [nn._histogram_encode("A" * k + "G", 1), nn._histogram_encode("C" * k + "G", 1)]
+        tree = KDTree(m, compact_nodes=True, balanced_tree=True)
+        for name, R in (("code", r_src), ("sqrt(2k^2)", float(np.sqrt(2 * k * k))), ("below", float(np.nextafter(r_src, 0))),
+                        ("above", float(np.nextafter(r_src, np.inf))), ("norm", float(np.linalg.norm([k, -k])))):
+            got = 1 in [int(x) for x in tree.query_ball_point(m[0], r=R)]
+            ops.append({"op": "in_ball", "r_bits": str(bits(R)), "sq": 2 * k * k})
+            metas.append((k, name, R, got))
+    chk.count("corr:radius~np", len(ks))
+    chk.count("corr:in_ball~KDTree", len(ops))
+    chk.evaluations += len(ks) + len(ops)
+    for (k, name, R, got), a in zip(metas, core.run_driver_parallel(ops)):
+        if a != ("ok", got):
+            chk.broken_obligations.append(f"corr:in_ball~KDTree: SciPy {'keeps' if got else 'drops'} the boundary pair at squared distance {2 * k * k} "
+                                          f"for r = {R!r} ({name}, k={k}) but the modelled comparison sq <= r*r says {a}")
+            return
+
+
 def run(chk):
     nn = search.nn()
     chk.trusted_base = TRUSTED
@@ -78,6 +123,7 @@ def run(chk):
         chk.broken_obligations.append("corr:_histogram_encode: letter outside alphabet not rejected on both sides")
 
     # ---- float radius (PARTIAL clause): boundary constellations
+    radius_model_cases(chk, nn, 128)
     bad = kd_ball_cases(chk, nn, 64 if not thorough else 1024)
     if bad:
         chk.violation("C04|kd_ball|float-radius-miss",
